@@ -1,0 +1,14 @@
+//go:build verif
+// +build verif
+
+package parser
+
+// VerifFuncProtos exports a copy of the unexported prototype table (name -> argument token kinds)
+// for the /verif correspondence harness of property C17.
+func VerifFuncProtos() map[string][]Token {
+	out := make(map[string][]Token, len(funcProtos))
+	for k, v := range funcProtos {
+		out[k] = append([]Token(nil), v...)
+	}
+	return out
+}
